@@ -63,6 +63,15 @@ func (c *client) Dial(ctx context.Context) error {
 		c.conn = conn
 		c.connM.Unlock()
 
+		select {
+		case <-c.done:
+			// Close() was called while we were dialing and had no
+			// connection to close yet
+			conn.Close()
+			return
+		default:
+		}
+
 		// time out send hello if it take long
 		if deadline, ok := ctx.Deadline(); ok {
 			if err = c.conn.SetWriteDeadline(deadline); err != nil {
